@@ -17,6 +17,8 @@ func main() {
 		os.Exit(2)
 	}
 	switch os.Args[1] {
+	case "mutate":
+		os.Exit(runMutate(os.Args[2:]))
 	case "vf":
 		vf(os.Args[2:])
 	case "fields":
